@@ -48,7 +48,7 @@ def case_strategy(draw, tier):
         opts = dict(TIGHT_HEAT, mode="sequential")
     else:
         rec, opts = draw(gen.hyd_case(max_n=7 if tier == "quick" else 12, tight=True, labels=False, sectors=False,
-                                      allow_lift=False))   # pump / compressor lifts make solutions non-unique (see C08)
+                                      allow_lift=False, pi_every=3))   # pump / compressor lifts make solutions non-unique (see C08)
         opts["mode"] = "hydraulics"
         opts["friction_model"] = "nikuradse"
         # make sure a junction-pipe valve and a remote pressure controller occur often
@@ -62,7 +62,7 @@ def case_strategy(draw, tier):
     ops = []
     n = draw(st.integers(2, 7))
     for _ in range(n):
-        kind = draw(st.sampled_from(["reindex_junctions", "reindex_junctions", "reindex_pipes", "reindex_elements", "continuous_junction",
+        kind = draw(st.sampled_from(["reindex_junctions", "reindex_junctions", "reindex_pipes", "reindex_pipes", "reindex_elements", "continuous_junction",
                                      "continuous_elements", "continuous_element", "drop_junctions", "drop_pipes",
                                      "drop_elements_at_junctions", "fuse_junctions", "select_subnet"]))
         ops.append({"op": kind, "seed": draw(st.lists(st.integers(0, 60), min_size=12, max_size=12)),
@@ -272,8 +272,13 @@ def make_lookup(index, seeds, partial):
         return {}
     src = idx if not partial else pick(idx, seeds, 3, n=max(1, len(idx) // 2))
     base = max(idx) + 1 + seeds[0]
-    mode = seeds[1] % 3
-    if mode == 0:      # fresh labels above everything
+    mode = min(seeds[1] % 6, 3)
+    if mode == 3 and not partial:
+        # labels that are multiples of the table length (plus a small offset): the classic collision pattern of composite
+        # keys built as a * len(table) + b
+        n = len(idx)
+        return {s: n * ((k + seeds[2]) % n) + seeds[3] % 2 for k, s in enumerate(idx)}
+    if mode == 0 or mode == 3:      # fresh labels above everything
         return {s: base + 3 * k + (seeds[2 + k % 8] % 3) for k, s in enumerate(src)}
     if mode == 1 and not partial:   # permutation of the existing labels
         perm = idx[seeds[2] % len(idx):] + idx[:seeds[2] % len(idx)]
